@@ -89,10 +89,7 @@ func (c *Converter) ExpandUpdate(ctx context.Context, upd *sdcpb.Update, include
 		}
 		upds := append(upds, rs...)
 		return upds, nil
-	case *sdcpb.SchemaElem_Field:
-		var v interface{}
-		var err error
-
+	case *sdcpb.SchemaElem_Field, *sdcpb.SchemaElem_Leaflist:
 		var jsonValue []byte
 		switch upd.GetValue().GetValue().(type) {
 		case *sdcpb.TypedValue_JsonVal:
@@ -100,28 +97,52 @@ func (c *Converter) ExpandUpdate(ctx context.Context, upd *sdcpb.Update, include
 		case *sdcpb.TypedValue_JsonIetfVal:
 			jsonValue = upd.GetValue().GetJsonIetfVal()
 		}
-
-		// process value
-		if jsonValue != nil {
-			err = json.Unmarshal(jsonValue, &v)
-			if err != nil {
-				return nil, err
-			}
-			switch v := v.(type) {
-			case string:
-				upd.Value = &sdcpb.TypedValue{Value: &sdcpb.TypedValue_StringVal{StringVal: v}}
-			}
+		if jsonValue == nil {
+			upds = append(upds, upd)
+			return upds, nil
 		}
-
-		// TODO: Check if value is json and convert to String ?
-		upds = append(upds, upd)
-		return upds, nil
-	case *sdcpb.SchemaElem_Leaflist:
-		// TODO: Check if value is json and convert to String ?
-		upds = append(upds, upd)
+		// a JSON value given on the path of the leaf or leaf-list itself is converted exactly
+		// like that member of a JSON document given on the parent
+		rs, err := c.expandJsonLeafValue(ctx, upd.GetPath(), jsonValue)
+		if err != nil {
+			return nil, err
+		}
+		upds = append(upds, rs...)
 		return upds, nil
 	}
 	return nil, nil
+}
+
+// expandJsonLeafValue converts the JSON value of a leaf or leaf-list via the expansion of its parent.
+func (c *Converter) expandJsonLeafValue(ctx context.Context, p *sdcpb.Path, jsonValue []byte) ([]*sdcpb.Update, error) {
+	numElems := len(p.GetElem())
+	if numElems == 0 {
+		return nil, fmt.Errorf("json value for a leaf without a path")
+	}
+	var v interface{}
+	jsonDecoder := json.NewDecoder(bytes.NewReader(jsonValue))
+	// keep numbers as they are written, float64 cannot hold all 64 bit integers
+	jsonDecoder.UseNumber()
+	err := jsonDecoder.Decode(&v)
+	if err != nil {
+		return nil, err
+	}
+	parent := proto.Clone(p).(*sdcpb.Path)
+	name := parent.GetElem()[numElems-1].GetName()
+	parent.Elem = parent.GetElem()[:numElems-1]
+	rsp, err := c.schemaClientBound.GetSchemaSdcpbPath(ctx, parent)
+	if err != nil {
+		return nil, err
+	}
+	cs, ok := rsp.GetSchema().GetSchema().(*sdcpb.SchemaElem_Container)
+	if !ok {
+		return nil, fmt.Errorf("parent of %s is not a container", ToXPath(p, false))
+	}
+	if isKey(name, cs) {
+		// the key is part of the path already, its value is taken as string
+		return []*sdcpb.Update{{Path: p, Value: &sdcpb.TypedValue{Value: &sdcpb.TypedValue_StringVal{StringVal: fmt.Sprintf("%v", v)}}}}, nil
+	}
+	return c.ExpandContainerValue(ctx, parent, map[string]any{name: v}, cs, false)
 }
 
 func (c *Converter) ExpandUpdateKeysAsLeaf(ctx context.Context, upd *sdcpb.Update) ([]*sdcpb.Update, error) {
